@@ -7,6 +7,8 @@ use std::io::Write;
 use std::process::{Command, Stdio};
 
 pub mod c14;
+pub mod c15;
+pub mod env;
 
 /// splitmix64: every random choice of a run derives from `VERIF_SEED`.
 #[derive(Clone)]
@@ -128,6 +130,22 @@ pub struct Report {
     pub violations: Vec<Violation>,
     pub notes: Vec<String>,
     pub exhaustive: bool,
+}
+
+/// panic class of a model `site` number (site numbers are unique across the Lean layers; the
+/// implementation's panic messages are mapped to the same classes by `c14::panic_class`)
+pub fn site_class(site: u64) -> &'static str {
+    match site {
+        // Difficulty
+        1 | 5 | 6 | 20 | 30 | 31 | 32 => "sub-overflow",
+        2 | 3 | 4 | 7 | 8 | 21 | 22 => "mul-overflow",
+        9 | 12 => "add-overflow",
+        10 | 11 => "limit-total-overflow",
+        // Sampling
+        40 | 43 | 44 => "add-overflow",
+        41 | 42 => "sub-overflow",
+        _ => "unknown-site",
+    }
 }
 
 pub fn fnv(s: &str) -> u64 {
@@ -264,6 +282,7 @@ pub fn main() {
     silence_panics();
     let report = match opts.property.as_str() {
         "C14" => c14::run(&opts),
+        "C15" => c15::run(&opts),
         other => {
             eprintln!("unknown property {}", other);
             std::process::exit(2);
